@@ -43,6 +43,8 @@ async fn handshake_contract() {
         let challenge: SaitoHash = rng.arr();
         let issued = rng.below(4) != 0;
         if issued { peer.challenge_for_peer = Some(challenge); }
+        let is_static = rng.below(3) == 0;                          // an outgoing connection to a configured peer
+        if is_static { peer.static_peer_config = Some(PeerConfig { host: "127.0.0.1".to_string(), port: 12101, protocol: "http".to_string(), synctype: "full".to_string() }); }
         if rng.below(3) == 0 { peer.public_key = Some(k1); }          // a peer object that has been authenticated before (reconnecting static peer)
         let (pk, sk) = if rng.below(2) == 0 { (k1, s1) } else { (k2, s2) };
         let signed_challenge = match rng.below(3) { 0 => rng.arr::<32>(), _ => challenge };   // replayed / foreign challenge
@@ -51,7 +53,7 @@ async fn handshake_contract() {
         if rng.below(6) == 0 { resp.core_version = Version::new(my_core.major, my_core.minor.wrapping_add(1), 0); }
         let sig_valid = crate::core::util::crypto::verify(&challenge, &resp.signature, &resp.public_key);
         let compatible = my_core.is_same_minor_version(&resp.core_version);
-        let desc = format!("round {}: challenge issued={}, known key={:?}, response key={:?}, signature over issued challenge valid={}, version compatible={}", round, issued, peer.public_key.map(|k| k[1]), pk[1], sig_valid, compatible);
+        let desc = format!("round {}: static peer={}, challenge issued={}, known key={:?}, response key={:?}, signature over issued challenge valid={}, version compatible={}", round, is_static, issued, peer.public_key.map(|k| k[1]), pk[1], sig_valid, compatible);
         let had_key = peer.public_key;
         let result = std::panic::AssertUnwindSafe(peer.handle_handshake_response(resp, t.network.io_interface.as_ref(), t.wallet_lock.clone(), replay_cfg(), 0));
         let result = futures::FutureExt::catch_unwind(result).await;
